@@ -328,7 +328,8 @@ fn tsan_report_is_benign(block: &str) -> bool {
         if frame.contains("#0 memcpy") {
             let mut look = lines.clone();
             look.next();
-            if look.next().map(|f| f.contains("ts_subtree_clone")).unwrap_or(false) && block.contains("Atomic write of size 4") { continue; }
+            // (the other side is reported as "Atomic write" or "Previous atomic write", whichever access came second)
+            if look.next().map(|f| f.contains("ts_subtree_clone")).unwrap_or(false) && block.to_lowercase().contains("atomic write of size 4") { continue; }
         }
         let Some(loc) = frame.split_whitespace().find(|w| w.contains(".c:") || w.contains(".h:")) else { return false };
         let mut parts = loc.split(':');
